@@ -696,6 +696,28 @@ def rule_time_weighted(ctx, crate, rule="R-EST-TIME-WEIGHTED"):
                               "the first level combines its old value and the sample rate with the age weight",
                               "the first smoothing level is not updated from (old value, sample rate, age weight)", cfg)
     ctx.floor(rule, n, 4, cfg, "estimator_weight call sites")
+    # both normalisations divide by exactly `1 - weight(now - start_time)`: no clamp, floor or cap on the divisor (a floor on the
+    # total weight under-reports the rate by that factor while the true weight is below it - right after creation or a reset - and
+    # makes the update and the query disagree)
+    nd = 0
+    for fn in (r"state::Estimator::record", r"state::Estimator::steps_per_second"):
+        b = crate.body(fn.replace("\\", "")) or (crate.find(fn) or [None])[0]
+        if not b:
+            continue
+        for i, j, s_ in b.assigns():
+            rv = s_["rv"]
+            if rv["k"] != "bin" or rv["op"] != "Div" or b.locals[s_["lhs"]["l"]]["ty"] != "f64":
+                continue
+            dsl = b.slice(rv["b"], at=i)
+            if not dsl.has_call(r"state::estimator_weight"):
+                continue
+            nd += 1
+            clamps = dsl.calls_matching(r"(std|core)::f64::<impl f64>::(max|min|clamp|abs|maximum|minimum)", r"std::cmp::(max|min)", r"std::cmp::Ord::(max|min|clamp)")
+            ctx.check(not clamps, rule, "normalisation-unclamped:%s" % K.meth(b.name), b.name, "%s:%d" % (b.file, s_.get("line", 0)),
+                      "the rate is divided by the total weight itself",
+                      "the total weight the rate is divided by is clamped (%s): while the true weight is smaller - shortly after creation, reset_eta or a rewind - the rate is "
+                      "under-reported by that factor (and eta over-reported)" % [K.meth(c.path) for c in clamps][:2], cfg)
+    ctx.floor(rule, nd, 2, cfg, "divisions by the total weight")
     wb = K.find_one(ctx, crate, rule, r"state::estimator_weight")
     if wb:
         pw = wb.calls(r"std::f64::<impl f64>::(powf|exp|exp2)", r"core::f64::<impl f64>::(powf|exp|exp2)", r".*::powf", r".*::exp")
